@@ -180,7 +180,18 @@ fn inline_image(lexer: &mut Lexer, resolve: &impl Resolve) -> Result<Arc<ImageXO
         ]
     ), resolve)).transpose()?;
     let decode = dict.get("Decode").map(|p| Object::from_primitive(p.clone(), resolve)).transpose()?;
-    let decode_parms = dict.get("DecodeParms").map(|p| p.clone().resolve(resolve)?.into_dictionary()).transpose()?.unwrap_or_default();
+    // one dictionary, or an array with one entry (dictionary or null) per filter
+    let decode_parms: Vec<Option<Dictionary>> = match dict.get("DecodeParms").map(|p| p.clone().resolve(resolve)).transpose()? {
+        None | Some(Primitive::Null) => vec![],
+        Some(Primitive::Array(parts)) => parts.into_iter()
+            .map(|p| match p.resolve(resolve)? {
+                Primitive::Null => Ok(None),
+                p => p.into_dictionary().map(Some)
+            })
+            .collect::<Result<_>>()?,
+        Some(p) => vec![Some(p.into_dictionary()?)]
+    };
+    let parms_for = |i: usize| decode_parms.get(i).cloned().flatten().unwrap_or_default();
     let filter = dict.remove("Filter").map(|p| expand_abbr(p,
         &[
             ("AHx", "ASCIIHexDecode"),
@@ -193,10 +204,10 @@ fn inline_image(lexer: &mut Lexer, resolve: &impl Resolve) -> Result<Arc<ImageXO
         ]
     ));
     let filters = match filter {
-        Some(Primitive::Array(parts)) => parts.into_iter()
-            .map(|p| p.as_name().and_then(|kind| StreamFilter::from_kind_and_params(kind, decode_parms.clone(), resolve)))
+        Some(Primitive::Array(parts)) => parts.into_iter().enumerate()
+            .map(|(i, p)| p.as_name().and_then(|kind| StreamFilter::from_kind_and_params(kind, parms_for(i), resolve)))
             .collect::<Result<_>>()?,
-        Some(Primitive::Name(kind)) => vec![StreamFilter::from_kind_and_params(&kind, decode_parms, resolve)?],
+        Some(Primitive::Name(kind)) => vec![StreamFilter::from_kind_and_params(&kind, parms_for(0), resolve)?],
         None => vec![],
         _ => bail!("invalid filter")
     };
